@@ -47,6 +47,10 @@ fn worker(id: u64, rounds: u64, flag: Option<String>) -> u64 {
     }
     acc
 }
+#[inline(never)]
+fn finale(t: u64) -> u64 {
+    black_box(t).wrapping_add(1)
+}
 fn main() {
     let args: Vec<String> = std::env::args().collect();
     let nthreads: u64 = args.get(1).and_then(|s| s.parse().ok()).unwrap_or(0);
@@ -60,6 +64,7 @@ fn main() {
     for h in handles {
         total = total.wrapping_add(h.join().unwrap());
     }
+    total = finale(total);
     println!("total={}", total);
     std::process::exit((total % 5) as i32 + 1);
 }
@@ -72,6 +77,9 @@ pub enum StopKind {
     AtBreakpoint,
     AfterStepi,
     AfterExit,
+    /// multi-threaded only: a breakpoint (on `finale`) is created while a worker thread is in focus, the worker's own
+    /// breakpoint is removed, the workers finish and exit, the main thread stops at `finale`
+    WorkerFocusBp,
 }
 #[derive(Clone, Debug, PartialEq)]
 pub enum Ending {
@@ -365,6 +373,57 @@ fn world_child(log: &mut iso::Log, bin: &Path, scratch: &str, tag: &str, plan: &
                 log.put(json!({"ev": "watch", "res": format!("{:?}", r.map_err(|e| e.to_string()))}));
             }
         }
+        if !exited && plan.stop == StopKind::WorkerFocusBp {
+            let main_pid = dbg.process().pid();
+            let mut worker_stop = false;
+            for _ in 0..40 {
+                let focus = dbg.ecx().pid_on_focus();
+                if focus != main_pid {
+                    worker_stop = true;
+                    break;
+                }
+                match dbg.continue_debugee_with_reason() {
+                    Ok(StopReason::Breakpoint(_, _)) => {}
+                    Ok(StopReason::DebugeeExit(c)) => {
+                        exited = true;
+                        exit_code = Some(c);
+                        break;
+                    }
+                    Ok(o) => {
+                        log.put(json!({"ev": "note", "what": format!("stop {o:?}")}));
+                    }
+                    Err(e) => {
+                        log.put(json!({"ev": "error", "what": format!("run: {e}")}));
+                        break;
+                    }
+                }
+            }
+            log.put(json!({"ev": "note", "what": format!("worker in focus: {worker_stop}")}));
+            if worker_stop && !exited {
+                let r = dbg.set_breakpoint_at_fn("finale").map(|v| v.len());
+                log.put(json!({"ev": "break", "what": "finale (created with a worker thread in focus)", "res": format!("{:?}", r.map_err(|e| e.to_string()))}));
+                for v in dbg.breakpoints_snapshot().iter().filter(|v| v.place.as_ref().map(|p| p.line_number == MT_LINE_TICK).unwrap_or(false)).map(|v| v.number).collect::<Vec<_>>() {
+                    let _ = dbg.remove_breakpoint_by_number(v);
+                }
+                let _ = std::fs::write(&flag, b"go");
+                match dbg.continue_debugee_with_reason() {
+                    Ok(StopReason::Breakpoint(p, _)) => {
+                        check(log, "finale-stop-by-main", p == main_pid, format!("stop at finale reported for thread {p}, main thread is {main_pid}"));
+                    }
+                    Ok(StopReason::DebugeeExit(c)) => {
+                        exited = true;
+                        exit_code = Some(c);
+                        check(log, "finale-breakpoint-hit", false, "the program ran to its end: the breakpoint on `finale` was not hit".into());
+                    }
+                    Ok(o) => {
+                        log.put(json!({"ev": "note", "what": format!("stop {o:?}")}));
+                    }
+                    Err(e) => {
+                        log.put(json!({"ev": "error", "what": format!("run: {e}")}));
+                    }
+                }
+            }
+        }
         if !exited && plan.stop == StopKind::AfterStepi {
             for _ in 0..3 {
                 if let Err(e) = dbg.stepi() {
@@ -379,6 +438,7 @@ fn world_child(log: &mut iso::Log, bin: &Path, scratch: &str, tag: &str, plan: &
     let pid = dbg.process().pid().as_raw();
     let n_threads_live = live_tids(pid).len();
     if std::env::var("C11_DUMP").is_ok() {
+        log.put(json!({"ev": "note", "what": format!("all tasks: {:?}", e2e::kernel_tids(Pid::from_raw(pid)).iter().map(|t| (*t, e2e::task_state(Pid::from_raw(pid), *t))).collect::<Vec<_>>())}));
         for t in live_tids(pid) {
             let sc = std::fs::read_to_string(format!("/proc/{pid}/task/{t}/syscall")).unwrap_or_default();
             log.put(json!({"ev": "note", "what": format!("tid {t} state {:?} syscall {}", e2e::task_state(Pid::from_raw(pid), t), sc.trim())}));
@@ -408,7 +468,9 @@ fn world_child(log: &mut iso::Log, bin: &Path, scratch: &str, tag: &str, plan: &
         };
         check(log, "exited-native-output", out == native_out, format!("output {:?}, native {:?}", String::from_utf8_lossy(&out), String::from_utf8_lossy(native_out)));
     } else if plan.attached {
-        inspect_released(log, pid, bin, Some(&flag), Some(&out_file), None, native_out, native_code, true);
+        // (in the worker-focus plan the flag is already written: the released program may simply run to its end)
+        let held_by = if plan.stop == StopKind::WorkerFocusBp { None } else { Some(flag.as_path()) };
+        inspect_released(log, pid, bin, held_by, Some(&out_file), None, native_out, native_code, true);
     } else if plan.ending == Ending::Drop {
         inspect_gone(log, pid, "launched-no-process-left");
     } else {
@@ -546,6 +608,9 @@ pub fn run(args: &[String]) -> i32 {
                         }
                     }
                 }
+            }
+            for ending in [Ending::Drop, Ending::DetachDrop] {
+                plans.push(WorldPlan { attached: true, threads: 3, stop: StopKind::WorkerFocusBp, ending: ending.clone(), n_bps: 1, watch: false, continues: 0 });
             }
             let grid = plans.len();
             while plans.len() < n_world.max(grid) {
